@@ -14,19 +14,19 @@ package searcher
 
 // ---- FilteringSearcher: the child's stream restricted to accepted matches ----
 // representation invariant: the child is never behind this searcher
-//@ spec filterInv(f *FilteringSearcher) bool = f.child != nil && f.accept != nil && implies(f.started, f.child.started && f.child.last >= f.last) && implies(f.done, f.child.done)
+//@ spec filterInv(f *FilteringSearcher) bool = f.child != nil && f.child != f && f.accept != nil && implies(f.started, f.child.started && f.child.last >= f.last) && implies(f.done, f.child.done)
 
 //@ func FilteringSearcher.Next
 //@   props C08
 //@   mode int
 //@   requires f != nil && filterInv(f) && ctx != nil && ctx.DocumentMatchPool != nil
-//@   modifies f.started, f.last, f.done, f.child.started, f.child.last, f.child.done, search.DocumentMatch.IndexInternalID, search.DocumentMatch.Score, search.DocumentMatchPool.avail, mem(*search.DocumentMatch)
+//@   modifies f.started, f.last, f.done, f.child.started, f.child.last, f.child.done, fields(search.DocumentMatch), search.DocumentMatchPool.avail, mem(*search.DocumentMatch)
 //@   at return: ghost f.started = f.started || (result1 == nil && result0 != nil)
 //@   at return: ghost f.last = ite(result1 == nil && result0 != nil, idKey(result0.IndexInternalID), f.last)
 //@   at return: ghost f.done = f.done || (result1 == nil && result0 == nil)
 //@   ensures implies(result1 == nil, filterInv(f))
 //@   ensures implies(result1 == nil && result0 != nil, ascending(old(f.started), old(f.last), result0) && f.last == idKey(result0.IndexInternalID) && f.started)
 //@   ensures implies(result1 == nil && result0 == nil, f.done)
-//@   loop 0: invariant f.child != nil && f.accept != nil && ctx.DocumentMatchPool != nil && f.started == old(f.started) && f.last == old(f.last) && f.done == old(f.done)
+//@   loop 0: invariant f.child == old(f.child) && f.accept == old(f.accept) && ctx.DocumentMatchPool != nil && f.started == old(f.started) && f.last == old(f.last) && f.done == old(f.done)
 //@   loop 0: invariant implies(err == nil && next != nil, f.child.started && f.child.last == idKey(next.IndexInternalID) && unconsumed(old(f.child.started), old(f.child.last), f.child.last) && !f.child.done)
 //@   loop 0: invariant implies(err == nil && next == nil, f.child.done)
